@@ -44,6 +44,7 @@ def gen_family(rng, n_roots=(1, 3), n_cond=(2, 8), n_rdm=(1, 4)):
     fzero = rng.chance(0.15)     # some exact zeros between different conditions (family-wide)
     fnote = rng.chance(0.3)      # an rdm descriptor that only some of the root objects carry
     fdtype = rng.pick(['float64', 'float64', 'float64', 'float64', 'int64', 'float32'])     # dtype of the stacks handed to the constructor
+    finf = rng.chance(0.08) and fdtype != 'int64'      # some infinite dissimilarities (family-wide)
     styp = rng.pick(['str', 'str', 'int', 'bigint', 'tiny', 'vec'])     # object-level descriptor values incl. falsy ones ('' / 0), one type per family
     # (numbers that differ in the tenth digit -- acquisition ids, time stamps -- or far below one are different values)
     sess_vals = {'str': ['s1', 's2', '', 's7'], 'int': [0, 1, 2, 0], 'bigint': [2023100401, 2023100402, 2023100403, 2023100401],
@@ -72,6 +73,8 @@ def gen_family(rng, n_roots=(1, 3), n_cond=(2, 8), n_rdm=(1, 4)):
             spec['neg'] = True
         if fzero:
             spec['zeros'] = True
+        if finf:
+            spec['infs'] = True
         if fnote and rng.chance(0.5):
             spec['rdm_desc']['note'] = {'values': ['n%d' % u for u in ru], 'container': rng.pick(['list', 'array'])}
         if rng.chance(0.25) and nc >= 4 and rdtype != 'int64':
